@@ -3,7 +3,7 @@
 PROPS = {}
 HOOK_COMMITS = ['46951c9', 'b770325']
 # properties without a registered check yet (kept current; the aim is an empty list)
-NOT_APPLICABLE = {("C%02d" % i): "check under construction in this session; not yet claimed" for i in range(1, 21)}
+NOT_APPLICABLE = {}
 
 PROPS["C20"] = dict(
     harness="process", module="Cases.C20Check",
@@ -391,4 +391,28 @@ PROPS["C18"] = dict(
            "Implrun-did-not-return": "Run() did not return within 5 s"},
     trusted=["goja: promise job queue semantics and callable wrappers", "real-time timers (firing order is not constrained by the judge)"],
     assumptions=["each callback is scheduled at most once (tree-shaped programs)", "no order is promised between different timers"],
+)
+
+
+PROPS["C17"] = dict(
+    harness="share", module="Cases.C17Check", shard=100, race=True, harness_timeout=2400,
+    level_text="C17_loop_accesses_ordered: on the access table regenerated from eventloop.go (93 reads/writes of loop, job, Timer and Interval fields, "
+               "with the mutexes held and the sync/atomic calls), every conflicting pair is ordered: both atomic, a common mutex, the same goroutine "
+               "(the owner, unique by C17_single_owner = C03), or before publication; C17_registry_accesses_ordered for the Registry; "
+               "C17_loaded_at_most_once / _exactly_once / C17_order_irrelevant: the compile cache as a function of any request sequence",
+    level_note="The race-freedom theorems are computations over tables the translator extracts syntactically on every run (unit, use of each function "
+               "literal, field, read/write, locks held, atomic); which goroutines may execute a unit is the hand-written part of Model/LoopAccess.v. "
+               "Go's memory model (mutex, atomic, channel and go-statement ordering) is trusted, as are goja's internals (a runtime is used by one "
+               "goroutine at a time exactly when the owner is unique). Deadlock freedom is exercised (time-outs), not proved. Executed interleavings "
+               "are additionally checked by the Go race detector (harness built with -race, workload in a child process).",
+    rule="(A) per batch 6 loops: 2-6 goroutines x 200 calls of RunOnLoop/SetTimeout/SetInterval/ClearTimeout/ClearInterval/StopNoWait with random "
+         "pauses against a started loop whose controller cycles Stop/Terminate/Start; callbacks run JavaScript that sets more timers and immediates; "
+         "(B) per batch 40 registries: 3-7 files (loadable / not compiling / missing), 2-7 runtimes on goroutines released together, each requiring "
+         "1-9 files; SourceLoader calls counted per path, module state marked per runtime; non-trivial = at least 3 runtimes",
+    codes={"SpecFail1": "a loadable file was fetched more than once", "SpecFail2": "a runtime saw the module state of another runtime",
+           "SpecFail3": "a runtime evaluated a module body a number of times different from the distinct loadable files it required",
+           "Diff1": "loader calls differ from the compile-cache model", "Impldata-race": "the Go race detector reported a data race",
+           "Impldeadlock-or-hang": "the workload did not finish within 120 s", "Implworkload-crashed": "the workload process crashed"},
+    trusted=["Go memory model; Go race detector (reports only executed interleavings)", "goja"],
+    assumptions=["RegisterNativeModule and the Registry options are called before the Registry is shared", "Start/Stop/Terminate from one goroutine"],
 )
